@@ -18,9 +18,18 @@ CLAIMED = {
     "C05": ("static effect analysis (store-origin/ownership) + lock-region must-dataflow over go/ssa, VTA call graph",
             "every write reachable from concurrently callable entries (Execute*, ExecuteBlocks, From*, Render*, CleanCache, filters) goes to per-execution/fresh memory, to the template under construction, or to set state under the set mutex; the cache map is accessed only under its mutex",
             "that concurrent runs return exactly the sequential outputs (observed equality); races inside user data, user funcs, loaders", "DESIGN.md §3 C05"),
+    "C02": ("sink enumeration with text-provenance classification, per-incoming-edge opt-out guards, safe-bit provenance, finite truth-table evaluation of FilterApplied, who-writes-the-mode rule, escape table check",
+            "every TemplateWriter sink reachable from execution writes constants/parse-time text, rendered sub-output, numbers, or a value that was escaped or passed an explicit opt-out on every incoming path; values are marked safe only for rendered/constant text, in the documented *_html filters or when unwrapping the same value; FilterApplied of operator nodes is the conjunction of the operands'; the escaping mode is written only by constructors and the autoescape tag with restore; the escape table covers & < > \" '",
+            "text reaching the output through user-supplied Go functions that return values marked safe; the filter tag writes its chain result raw (known finding)", "DESIGN.md §3 C02"),
     "C03": ("path-guard (must-pass-through edge) queries, provenance and who-may-write rules over go/ssa + AST uses",
             "every TagParser invocation is reached only on the not-banned edge of a lookup of the same name in the compiling set's ban map (banned edge returns an error); every template-named filter resolution (registry lookup, ApplyFilter with a stored name) is tied to a ban check before a successful return; sub-templates compile through the referring template's set (never the default-set shortcuts); Templates are constructed only by From* with the receiver set; ban maps are written only by BanTag/BanFilter behind freeze/existence/duplicate tests; every template-creating method sets the freeze flag first",
             "nothing of the statement is left to behaviour except that custom tags/filters registered by users are outside the engine", "DESIGN.md §3 C03"),
+    "C01": ("reflect typestate abstract interpretation (kind sets, interfaceability, key assignability; first-iteration partitioning; computed predicate summaries), concrete-type-set analysis, path-guard queries, reviewed panic table",
+            "every kind-restricted reflect.Value operation has its precondition established on every path; Interface() only on interfaceable values and every pongo2.Value is built from one; MapIndex only with an assignable key; every unchecked type assertion is proven by the operand's concrete types; integer division/modulo behind a zero test; explicit panic sites reachable from compile/execute are the reviewed ones; resource sinks are capped; every route into a macro body passes the depth guard; the cache mutex is paired and never re-entered",
+            "index/slice bounds that depend on runtime integers (except the resolver's), nil-dereference freedom in general, termination/stack depth of structural recursion (self-including templates) and of the spaceless fix-point loop, user-supplied Go code", "DESIGN.md §3 C01"),
+    "C08": ("reflect typestate abstract interpretation restricted to the resolver and the Value accessors, sibling cross-check, dominator/path-guard rules on the call protocol and index bounds",
+            "the resolver cannot panic on any value kind (typestate); both forms of a step guard map lookups by key assignability and filter struct fields through CanInterface; the reflect Call is preceded by Kind==Func, arity, NumOut, parameter-type and validity tests with error edges and the error result is examined; Index only for 0<=i<Len(); invalid intermediates end with (empty value, nil) while scalars/non-functions are errors; no reflect conversions; Private before Public, Globals before context",
+            "that a path denotes exactly the value a reference resolver computes (values are never computed)", "DESIGN.md §3 C08"),
     "C06": ("constant and provenance rules over go/ssa, call-graph reachability, constant-table check",
             "the lexer's end-of-input marker lies outside the rune domain; emit rewrites token values only under a type test excluding TokenHTML and Val is the source slice input[start:pos]; one text node per HTML token holding that token, writing its Val changed only by flag-guarded trims; the comment tag's parser reaches no parsing function and its node does nothing; the templatetag table equals the specification and the node writes the looked-up value; tokenize() runs only on the !inVerbatim edge",
             "lexer span arithmetic over arbitrary bytes, the concatenation homomorphism, acceptance of every verbatim placement (empty/adjacent verbatim blocks are known to fail, observable only by running the lexer)", "DESIGN.md §3 C06"),
@@ -114,6 +123,12 @@ def main():
         "not_applicable": na,
         "notes": "All checks are static: they load and type-check /repo's working tree on every run and never execute pongo2. Known genuine defects recorded instead of repaired are in known_findings.json.",
     }
+    with open(os.path.join(ROOT, "checker", "proptext_gen.go"), "w") as g:
+        g.write("package main\n\n// Code generated by tools/gen_manifest.py; DO NOT EDIT.\n\nfunc init() {\n")
+        for pid in sorted(CLAIMED):
+            tech, decided, declined, ref = CLAIMED[pid]
+            g.write("\tpropText[%s] = [2]string{%s, %s}\n" % (json.dumps(pid), json.dumps("Static analysis (" + tech + "), nothing is executed. Decided: " + decided + "."), json.dumps(declined)))
+        g.write("}\n")
     with open(os.path.join(ROOT, "MANIFEST.json"), "w") as f:
         json.dump(m, f, indent=1)
         f.write("\n")
